@@ -55,11 +55,19 @@ impl Out {
         self.mark(s, role);
     }
     fn u16(&mut self, v: u16, role: Role) {
-        let d = if self.be { v.to_be_bytes() } else { v.to_le_bytes() };
+        let d = if self.be {
+            v.to_be_bytes()
+        } else {
+            v.to_le_bytes()
+        };
         self.raw(&d, role);
     }
     fn u32(&mut self, v: u32, role: Role) {
-        let d = if self.be { v.to_be_bytes() } else { v.to_le_bytes() };
+        let d = if self.be {
+            v.to_be_bytes()
+        } else {
+            v.to_le_bytes()
+        };
         self.raw(&d, role);
     }
     fn uint(&mut self, v: u128, bits: u8, role: Role) {
@@ -131,7 +139,11 @@ fn encode_arg(o: &mut Out, a: &RArg) {
             o.raw(&[v], Role::Value);
         }
         RKind::Str => {
-            let s = if let RVal::Str(s) = &a.val { s.as_str() } else { "" };
+            let s = if let RVal::Str(s) = &a.val {
+                s.as_str()
+            } else {
+                ""
+            };
             o.u16((s.len() + 1) as u16, Role::LenPrefix);
             if a.ty.vari {
                 o.u16((name.len() + 1) as u16, Role::LenPrefix);
@@ -157,7 +169,11 @@ fn encode_arg(o: &mut Out, a: &RArg) {
                 o.text0(unit);
             }
             let bits = match k {
-                RKind::Sint(b) | RKind::Uint(b) | RKind::SintFx(b) | RKind::UintFx(b) | RKind::Float(b) => b,
+                RKind::Sint(b)
+                | RKind::Uint(b)
+                | RKind::SintFx(b)
+                | RKind::UintFx(b)
+                | RKind::Float(b) => b,
                 _ => 8,
             };
             if let Some((q, off)) = a.fixp {
@@ -176,7 +192,11 @@ fn encode_arg(o: &mut Out, a: &RArg) {
 }
 
 pub fn encode_payload(m: &RMsg, o_be: bool) -> (Vec<u8>, Vec<Field>) {
-    let mut o = Out { b: vec![], be: o_be, map: vec![] };
+    let mut o = Out {
+        b: vec![],
+        be: o_be,
+        map: vec![],
+    };
     match &m.payload {
         RPayload::Verbose(args) => {
             for a in args {
@@ -202,7 +222,11 @@ pub fn payload_len(m: &RMsg) -> usize {
 
 /// Encode a message exactly as the layout prescribes (uses `m.len` as given).
 pub fn encode_with_map(m: &RMsg) -> (Vec<u8>, Vec<Field>) {
-    let mut o = Out { b: vec![], be: true, map: vec![] };
+    let mut o = Out {
+        b: vec![],
+        be: true,
+        map: vec![],
+    };
     if let Some(s) = &m.storage {
         o.raw(b"DLT\x01", Role::Pattern);
         o.raw(&s.secs.to_le_bytes(), Role::StorageTime);
@@ -222,7 +246,12 @@ pub fn encode_with_map(m: &RMsg) -> (Vec<u8>, Vec<Field>) {
         o.raw(&m.tmsp.unwrap_or(0).to_be_bytes(), Role::U32Field);
     }
     if m.htyp & UEH != 0 {
-        let e = m.ext.clone().unwrap_or(RExt { msin: 0, noar: 0, apid: String::new(), ctid: String::new() });
+        let e = m.ext.clone().unwrap_or(RExt {
+            msin: 0,
+            noar: 0,
+            apid: String::new(),
+            ctid: String::new(),
+        });
         o.raw(&[e.msin], Role::Msin);
         o.raw(&[e.noar], Role::Noar);
         o.id(&e.apid);
@@ -232,13 +261,21 @@ pub fn encode_with_map(m: &RMsg) -> (Vec<u8>, Vec<Field>) {
     let (p, pmap) = encode_payload(m, m.big_endian());
     o.b.extend_from_slice(&p);
     for f in pmap {
-        o.map.push(Field { start: f.start + base, end: f.end + base, role: f.role });
+        o.map.push(Field {
+            start: f.start + base,
+            end: f.end + base,
+            role: f.role,
+        });
     }
     (o.b, o.map)
 }
 /// the 16-byte storage header alone
 pub fn encode_storage(s: &RStorage) -> Vec<u8> {
-    let mut o = Out { b: vec![], be: true, map: vec![] };
+    let mut o = Out {
+        b: vec![],
+        be: true,
+        map: vec![],
+    };
     o.raw(b"DLT\x01", Role::Pattern);
     o.raw(&s.secs.to_le_bytes(), Role::StorageTime);
     o.raw(&s.micros.to_le_bytes(), Role::StorageTime);
@@ -311,7 +348,12 @@ pub fn decode_type(w: u32) -> Option<RType> {
         0b100_0000 => RKind::Raw,
         _ => return None,
     };
-    Some(RType { kind, vari, trai, scod })
+    Some(RType {
+        kind,
+        vari,
+        trai,
+        scod,
+    })
 }
 
 pub struct Cur<'a> {
@@ -334,11 +376,19 @@ impl<'a> Cur<'a> {
     }
     pub fn u16(&mut self) -> Option<u16> {
         let s = self.take(2)?;
-        Some(if self.be { u16::from_be_bytes([s[0], s[1]]) } else { u16::from_le_bytes([s[0], s[1]]) })
+        Some(if self.be {
+            u16::from_be_bytes([s[0], s[1]])
+        } else {
+            u16::from_le_bytes([s[0], s[1]])
+        })
     }
     pub fn u32(&mut self) -> Option<u32> {
         let s: [u8; 4] = self.take(4)?.try_into().unwrap();
-        Some(if self.be { u32::from_be_bytes(s) } else { u32::from_le_bytes(s) })
+        Some(if self.be {
+            u32::from_be_bytes(s)
+        } else {
+            u32::from_le_bytes(s)
+        })
     }
     pub fn uint(&mut self, bits: u8) -> Option<u128> {
         let n = bits as usize / 8;
@@ -416,14 +466,21 @@ pub fn decode_arg(c: &mut Cur) -> Result<RArg, &'static str> {
             }
         }
     };
-    Ok(RArg { ty, name, unit, fixp, val })
+    Ok(RArg {
+        ty,
+        name,
+        unit,
+        fixp,
+        val,
+    })
 }
 
 pub fn find_pattern(buf: &[u8]) -> Option<usize> {
     if buf.len() < 4 {
         return None;
     }
-    (0..=buf.len() - 4).find(|&i| buf[i] == b'D' && buf[i + 1] == b'L' && buf[i + 2] == b'T' && buf[i + 3] == 1)
+    (0..=buf.len() - 4)
+        .find(|&i| buf[i] == b'D' && buf[i + 1] == b'L' && buf[i + 2] == b'T' && buf[i + 3] == 1)
 }
 
 pub fn decode(buf: &[u8], with_storage: bool) -> Verdict {
@@ -459,7 +516,11 @@ pub fn decode(buf: &[u8], with_storage: bool) -> Verdict {
     let hdr_len = headers_len(htyp);
     let bad_len = (len as usize) < hdr_len;
     if m.len() < std_len {
-        return if bad_len { Verdict::IncompleteOrReject("length < headers") } else { Verdict::Incomplete };
+        return if bad_len {
+            Verdict::IncompleteOrReject("length < headers")
+        } else {
+            Verdict::Incomplete
+        };
     }
     if bad_len {
         return Verdict::Reject("length < headers");
@@ -489,7 +550,12 @@ pub fn decode(buf: &[u8], with_storage: bool) -> Verdict {
     let ext = if htyp & UEH != 0 {
         let e = &m[p..p + 10];
         p += 10;
-        Some(RExt { msin: e[0], noar: e[1], apid: text(&e[2..6]), ctid: text(&e[6..10]) })
+        Some(RExt {
+            msin: e[0],
+            noar: e[1],
+            apid: text(&e[2..6]),
+            ctid: text(&e[6..10]),
+        })
     } else {
         None
     };
@@ -518,8 +584,28 @@ pub fn decode(buf: &[u8], with_storage: bool) -> Verdict {
                 return Verdict::Reject("non-verbose payload < 4");
             }
             let id: [u8; 4] = pl[..4].try_into().unwrap();
-            RPayload::NonVerbose(if be { u32::from_be_bytes(id) } else { u32::from_le_bytes(id) }, pl[4..].to_vec())
+            RPayload::NonVerbose(
+                if be {
+                    u32::from_be_bytes(id)
+                } else {
+                    u32::from_le_bytes(id)
+                },
+                pl[4..].to_vec(),
+            )
         }
     };
-    Verdict::Msg(Box::new(RMsg { storage, htyp, mcnt, len, ecu, seid, tmsp, ext, payload }), off + len as usize)
+    Verdict::Msg(
+        Box::new(RMsg {
+            storage,
+            htyp,
+            mcnt,
+            len,
+            ecu,
+            seid,
+            tmsp,
+            ext,
+            payload,
+        }),
+        off + len as usize,
+    )
 }
